@@ -17,7 +17,7 @@ PROMPT = "laythe:> "
 
 def generate(r):
     """entries: list of [text, ok]; files: extra module files"""
-    lets, fns, classes, objs, gfns, mods, closures, ghosts = [], [], [], [], [], [], [], []
+    lets, fns, classes, objs, gfns, mods, closures, ghosts, pending = [], [], [], [], [], [], [], [], []
     entries = []
     files = {}
     n = r.randint(4, 18)
@@ -37,7 +37,9 @@ def generate(r):
             kinds += ["callc", "callc"]
         if lets:
             kinds += ["assign"]
-        kinds += ["ghost"]
+        kinds += ["ghost", "latefiber"]
+        if pending:
+            kinds += ["collect", "collect"]
         if ghosts:
             kinds += ["useghost", "useghost"]
         k = r.choice(kinds)
@@ -91,6 +93,17 @@ def generate(r):
         elif k == "fiber":
             entries.append(["fn w%d(ch, n) { for j in n.times() { ch <- [j, 'w']; } ch.close(); } let ch%d = chan(2); launch w%d(ch%d, %d); print('fib', (<- ch%d)[0], <- ch%d != nil);" % (
                 i, i, i, i, r.randint(2, 4), i, i), True])
+        elif k == "latefiber":
+            # a fiber launched by one entry and not run yet when the entry ends; a later entry communicates with it
+            entries.append(["fn lw%d(ch, n) { for j in n.times() { ch <- j * %d; } } let lch%d = chan(2); launch lw%d(lch%d, 2);" % (
+                i, i + 1, i, i, i), True])
+            pending.append([i, 0])
+        elif k == "collect":
+            slot = r.choice(pending)
+            entries.append(["print('late', <- lch%d);" % slot[0], True])
+            slot[1] += 1
+            if slot[1] == 2:
+                pending.remove(slot)
         elif k == "ghost":
             # a declaration whose initialiser raises: the entry fails, the name must not become usable garbage
             name = "z%d" % i
@@ -152,7 +165,7 @@ class C19(Check):
             "definition from an earlier entry after an intervening entry")
     assumptions = [
         "failing entries are constructed to have no effect before they fail, so the reference file is the concatenation of the successful entries",
-        "fibers are started and joined within one entry (the prompt starts a new main fiber per entry)",
+        "fibers either live within one entry or are launched by one entry and communicated with by later entries through a buffered channel (never more receives than sends)",
         "prompts are stripped by removing the literal prompt text",
     ]
 
